@@ -14,7 +14,7 @@ import numpy as np
 import static_frame as sf
 
 from .. import core, project as P, tlaval
-from . import common as C, ops, c04, c08, shape
+from . import common as C, ops, twin, c04, c08, shape
 
 # ---------------------------------------------------------------------------------------------
 # R
@@ -213,6 +213,9 @@ SWEEP = {
 SWEEP = {k: v for k, v in SWEEP.items() if v is not None}
 
 
+AUTO_LEFT_OUT = {'sum', 'prod', 'min', 'max', 'mean', 'median', 'std', 'var', 'all', 'any', 'cumsum', 'cumprod', 'loc_min', 'loc_max', 'iloc_min', 'iloc_max', 'cov', 'count'}
+
+
 def sweep_events(ctx, n_frames, start_id):
     events = []
     rng = ctx.rng
@@ -250,6 +253,18 @@ def sweep_events(ctx, n_frames, start_id):
                     results.append({'k': 'err', 'cat': 'conversion' if name.startswith('astype') else P.err_category(e)})
             events.append({'id': eid, 'kind': 'sweep', 'op': name, 'f': f, 'layouts': lays, 'results': results})
             ctx.count('V_sweep_' + ('err' if results[0].get('k') == 'err' else 'ok'))
+            eid += 1
+        # found, not listed: public attributes of the class read (called without arguments when callable, iterators run) on every layout; the
+        # reductions are left to the named operations above (their behaviour over object / text columns is classified there)
+        auto = twin._auto_methods(frames[0])
+        names_auto = [a for a in sorted(auto) if a.split(':')[1] not in AUTO_LEFT_OUT]
+        for name in rng.sample(names_auto, min(10, len(names_auto))):
+            results = []
+            for fr in frames:
+                blob = json.dumps(twin._call(auto[name], fr), sort_keys=True, default=str)
+                results.append(blob if len(blob) < 200000 else hashlib.sha1(blob.encode()).hexdigest())
+            events.append({'id': eid, 'kind': 'sweep', 'op': name, 'f': f, 'layouts': lays, 'results': results})
+            ctx.count('V_sweep_auto')
             eid += 1
     return events
 
